@@ -211,7 +211,10 @@ def run_tlc(module, cfg, metadir, env=None, workers=1, heap="4g", timeout=1800, 
                            universal_newlines=True, timeout=timeout)
         out, rc = r.stdout, r.returncode
     except subprocess.TimeoutExpired as e:
-        out, rc = (e.stdout or "") + "\nTIMEOUT", -9
+        so = e.stdout or ""
+        if isinstance(so, bytes):
+            so = so.decode("utf-8", "replace")
+        out, rc = so + "\nTIMEOUT", -9
     shutil.rmtree(metadir, ignore_errors=True)
     return rc, out, time.time() - t0
 
